@@ -24,6 +24,8 @@ def auto(result):
 
 
 def volume(v):
+    if np.asarray(v.data).size > 4_000_000:  # very large grids are not kept alive (memory)
+        return None
     return {'data': v.data}
 
 
